@@ -208,4 +208,115 @@ SEEDS = [
             self.node_mut(p_index).value = v;
         }
 """, note='payload swapped with the root on a special path'),
+
+    dict(id='D3-export-slot-scan', props=['C07', 'C10', 'C11'], file='src/key/array.rs',
+         old="""    fn create_ordered_list(&mut self, time: E) -> Vec<V> {
+        let height""",
+         new="""    fn create_ordered_list(&mut self, time: E) -> Vec<V> {
+        let n = self.store.buffer.len() as u32;
+        for i in 1..n {
+            if self.node(i).parent != EMPTY_REF && !self.node(i).is_not_expired(time) {
+                self.delete_index(i);
+            }
+        }
+        let height""", note='purge by raw slot scan: acts on freed slots (D3 shape)'),
+    dict(id='P1-map-delete-no-putback', props=['C11'], file='src/map/tree.rs',
+         old="""            } else {
+                self.remove_parents_child(nd_parent, delete_index);
+            }
+        }
+
+        self.store.put_back(delete_index);""",
+         new="""            } else {
+                self.remove_parents_child(nd_parent, delete_index);
+                return;
+            }
+        }
+
+        self.store.put_back(delete_index);""", note='red leaf removal leaks its slot'),
+    dict(id='P2-set-delete-release-wrong-slot', props=['C11'], file='src/set/tree.rs',
+         old="        self.store.put_back(delete_index);", new="        self.store.put_back(index);", note='two-children removal frees the slot that now holds the successor payload'),
+    dict(id='P3-key-double-putback', props=['C11'], file='src/key/tree.rs',
+         old="""        } else if nd_parent == EMPTY_REF {
+            self.root = EMPTY_REF;""",
+         new="""        } else if nd_parent == EMPTY_REF {
+            self.store.put_back(delete_index);
+            self.root = EMPTY_REF;""", note='removing the last node releases its slot twice'),
+    dict(id='P4-pool-grow-always', props=['C11'], file='src/map/pool.rs',
+         old="""        if self.unused.is_empty() {
+            self.reserve(self.unused.capacity());
+        }""",
+         new="""        if self.unused.len() < 2 {
+            self.reserve(self.unused.capacity());
+        }""", note='arena grows while a free slot exists'),
+    dict(id='P5-pool-grow-range-off', props=['C11'], file='src/set/pool.rs',
+         old="self.unused.extend((n..n + l).rev());", new="self.unused.extend((n..n + l - 1).rev());", note='one slot per growth step is never handed out'),
+    dict(id='P6-clear-skips-right', props=['C11', 'C12'], file='src/key/tree.rs',
+         old="""                if right != EMPTY_REF {
+                    self.store.put_back(right);
+                    n += 1;
+                }
+            }
+        }
+    }
+}""",
+         new="""                if right != EMPTY_REF && left == EMPTY_REF {
+                    self.store.put_back(right);
+                    n += 1;
+                }
+            }
+        }
+    }
+}""", note='clear leaks right subtrees of nodes with two children'),
+    dict(id='P7-insert-new-stale-left', props=['C11', 'C10'], file='src/map/tree.rs',
+         old="""        new_node.parent = p_index;
+        new_node.left = EMPTY_REF;
+        new_node.right = EMPTY_REF;
+        new_node.color = Color::Red;""",
+         new="""        new_node.parent = p_index;
+        new_node.right = EMPTY_REF;
+        new_node.color = Color::Red;""", note='reused slot keeps its stale left link'),
+    dict(id='P8-clear-counter', props=['C11'], file='src/set/tree.rs',
+         old="""                if left != EMPTY_REF {
+                    self.store.put_back(left);
+                    n += 1;
+                }""",
+         new="""                if left != EMPTY_REF {
+                    self.store.put_back(left);
+                }""", note='left children released but not counted: their subtrees are never visited'),
+
+    dict(id='S1-expire-left-uses-removed', props=['C10', 'C11', 'C01'], file='src/key/tree.rs',
+         old="""            self.delete_index(index);
+            index = self.node(n_index).left;""",
+         new="""            self.delete_index(index);
+            index = self.node(index).left;""", note='gate follows the left link of the slot it just removed'),
+    dict(id='S2-expire-root-no-reread', props=['C10', 'C11', 'C01'], file='src/key/tree.rs',
+         old="""            self.delete_index(index);
+            index = self.root;
+        }""",
+         new="""            self.delete_index(index);
+        }""", note='root gate keeps using the removed index'),
+    dict(id='S3-search-caches-child', props=['C10', 'C11', 'C06', 'C20'], file='src/key/tree.rs',
+         old="""                Ordering::Equal => return Some(entity.val),
+                Ordering::Less => index = self.expire_right(index, time),""",
+         new="""                Ordering::Equal => return Some(entity.val),
+                Ordering::Less => {
+                    let next = self.node(index).right;
+                    let gated = self.expire_right(index, time);
+                    index = if gated == EMPTY_REF { gated } else { next };
+                },""", note='exact lookup continues with a child index read before the lazy removal'),
+    dict(id='S4-insert-anchor-cached-grandchild', props=['C10', 'C11', 'C01'], file='src/key/tree.rs',
+         old="""            if key < self.node(index).entity.key {
+                index = self.expire_left(index, time);
+                if index == EMPTY_REF {
+                    self.insert_as_left(entity, p_index);
+                    return;
+                }""",
+         new="""            if key < self.node(index).entity.key {
+                let anchor = self.node(index).left;
+                index = self.expire_left(index, time);
+                if index == EMPTY_REF {
+                    self.insert_as_left(entity, if anchor == EMPTY_REF { p_index } else { anchor });
+                    return;
+                }""", note='links the new node under a child that the gate has just removed'),
 ]
